@@ -282,6 +282,14 @@ func (idx *PQIndex) Add(vector VectorNode) error {
 		return err
 	}
 
+	// Re-adding a soft-deleted ID: purge the stale entry first, otherwise the
+	// pending delete would hide (and the next Flush would drop) the new vector
+	if idx.deletedNodes.Contains(vector.ID()) {
+		if err := idx.flushLocked(); err != nil {
+			return err
+		}
+	}
+
 	// Encode vector into PQ code
 	code := idx.encode(vector.Vector())
 
@@ -371,6 +379,13 @@ func (idx *PQIndex) Flush() error {
 	idx.mu.Lock()
 	defer idx.mu.Unlock()
 
+	return idx.flushLocked()
+}
+
+// flushLocked is the body of Flush: it hard deletes all soft-deleted vectors.
+//
+// CONCURRENCY: This is an internal helper method. The caller MUST hold the write lock.
+func (idx *PQIndex) flushLocked() error {
 	// Quick exit if nothing to flush
 	deletedCount := int(idx.deletedNodes.GetCardinality())
 	if deletedCount == 0 {
